@@ -563,6 +563,79 @@ def ctx_has_new(ctx):
     return False
 
 
+def concurrent_cookie_clients(ctx, env, n_histories):
+    """Several connections run the DBUS_COOKIE_SHA1 exchange against the same keyring with their steps interleaved
+    (and finishing out of order, some abandoning): every conforming client - one that answers with the cookie the
+    keyring holds under the id it was given - is accepted, whatever the others did meanwhile."""
+    hx = binascii.hexlify
+    for h in range(n_histories):
+        r = random.Random('%s/c06conc/%s' % (ctx.seed, h))
+        case = {'kind': 'concurrent-cookie', 'idx': h}
+        n = r.randint(2, 5)
+        sess = [Session() for _ in range(n)]
+        state = ['new'] * n
+        chal = [None] * n
+        hist = []
+        for s_ in sess:
+            s_.feed([b'\0'])
+        ctx.count('evaluations')
+        while any(st not in ('done', 'gone') for st in state):
+            i = r.choice([k for k in range(n) if state[k] not in ('done', 'gone')])
+            s_ = sess[i]
+            if state[i] == 'new':
+                lines = s_.feed([b'AUTH DBUS_COOKIE_SHA1 ' + hx(authenv.USER.encode()) + b'\r\n'])
+                hist.append([i, 'AUTH', [l.decode('latin1')[:60] for l in lines]])
+                try:
+                    context, cid, server_challenge = binascii.unhexlify(lines[-1].split(b' ', 1)[1]).split(b' ')
+                except Exception:
+                    ctx.report('cookie-challenge-format', 'connection %d: AUTH DBUS_COOKIE_SHA1 answered %r' % (i, lines),
+                               {'history': hist}, case)
+                    return
+                chal[i] = (context, cid, server_challenge)
+                state[i] = 'challenged'
+                pending_ids = [c[1] for k, c in enumerate(chal) if c and state[k] == 'challenged']
+                if len(set(pending_ids)) != len(pending_ids):
+                    ctx.report('cookie-id-reused', 'two connections with an exchange in progress were given the same cookie '
+                               'id: %r' % pending_ids, {'history': hist}, case)
+                    return
+            elif state[i] == 'challenged':
+                if r.random() < 0.2:
+                    s_.finish()             # the client goes away in the middle of the exchange
+                    state[i] = 'gone'
+                    hist.append([i, 'disconnect', []])
+                    continue
+                context, cid, server_challenge = chal[i]
+                cookie = env.read_cookie(context, cid)
+                if cookie is None:
+                    ctx.report('cookie-vanished', 'connection %d: the cookie with id %r handed out for its exchange is no '
+                               'longer in the keyring' % (i, cid), {'history': hist}, case)
+                    return
+                lines = s_.feed([b'DATA ' + hx(authenv.cookie_response(server_challenge, cookie)) + b'\r\n'])
+                hist.append([i, 'DATA right', [l.decode('latin1')[:60] for l in lines]])
+                if not lines or kind_of(lines[-1]) != 'OK':
+                    ctx.report('conforming-client-refused', 'connection %d of %d concurrent cookie exchanges answered its '
+                               'challenge with the cookie stored under its id and got %r' % (i, n, lines),
+                               {'history': hist}, case)
+                    return
+                state[i] = 'ok'
+            elif state[i] == 'ok':
+                s_.feed([b'BEGIN\r\n'])
+                hist.append([i, 'BEGIN', []])
+                if s_.p.auth_calls != 1:
+                    ctx.report('conforming-client-refused', 'connection %d: BEGIN after OK did not authenticate' % i,
+                               {'history': hist}, case)
+                    return
+                state[i] = 'done'
+                ctx.count('concurrent_cookie_authentications')
+            if s_.crashed:
+                ctx.report(None, 'bus-side connection crashed with %r' % s_.crashed, {'history': hist}, case)
+                return
+        for s_ in sess:
+            s_.finish()
+        ctx.count('concurrent_cookie_histories')
+        ctx.distinct('nontrivial_cases', ('conc', n, tuple(x[0] for x in hist)))
+
+
 def run_adaptive_client(ctx, env, syms, case):
     """Like run_sequence, but 'DATA?' is sent only when the server asked for data."""
     out = []
@@ -649,6 +722,7 @@ def run(ctx):
         if si == 0:
             boundary_probes(ctx, env)
             conforming_clients(ctx, env)
+            concurrent_cookie_clients(ctx, env, 300 if ctx.tier == 'quick' else 6000)
         ctx.sample({'symbols': ['AUTH_COOKIE_user', 'DATA_right', 'BEGIN'],
                     'meaning': 'AUTH DBUS_COOKIE_SHA1 <hex user>; DATA <hex answer computed from the live challenge>; BEGIN'})
         ctx.sample({'symbols': ['AUTH_BOGUS'] * 6, 'expected': '5 x REJECTED then close'})
@@ -672,5 +746,7 @@ def replay(ctx, rp):
             run_sequence(ctx, env, seq, case, split_rng=r if r.random() < 0.5 else None)
         elif case['kind'] == 'boundary':
             boundary_probes(ctx, env)
+        elif case['kind'] == 'concurrent-cookie':
+            concurrent_cookie_clients(ctx, env, case['idx'] + 1)
         else:
             conforming_clients(ctx, env)
